@@ -154,6 +154,30 @@ func runC20(c *Ctx) {
 				}
 			}
 		}
+		// the handler serves concurrent requests: what it captures from its constructor holds no read position (a shared
+		// bytes.Reader / Buffer would be rewound and advanced by overlapping requests, which then get a truncated document)
+		for _, in := range instrs(outer) {
+			mc, isMC := in.(*ssa.MakeClosure)
+			if !isMC || mc.Fn != ssa.Value(f) {
+				continue
+			}
+			for i, b := range mc.Bindings {
+				t := b.Type()
+				for k := 0; k < 2; k++ {
+					if pt, isP := t.Underlying().(*types.Pointer); isP {
+						t = pt.Elem()
+					}
+				}
+				switch typeStr(t) {
+				case "bytes.Reader", "bytes.Buffer", "strings.Reader", "strings.Builder", "bufio.Reader", "bufio.Writer", "bufio.ReadWriter", "io.SectionReader", "io.Reader", "io.ReadSeeker", "io.ReadCloser", "os.File":
+					name := ""
+					if i < len(f.FreeVars) {
+						name = f.FreeVars[i].Name()
+					}
+					c.obD("R20.1", mc, s.what+"-handler-captures-no-cursor", false, "the serving closure captures no reader or buffer of its constructor: every request is answered from the immutable document bytes", "captured variable '"+name+"' is a "+typeStr(t)+" shared by all requests: its read position is moved by concurrent requests")
+				}
+			}
+		}
 		c.obF("R20.1", f, s.what+"-has-interception", nWrites >= 2, "the handler serves its document", fmt.Sprintf("%d response writes", nWrites))
 		// the document's content type REPLACES whatever the response already carries (Header.Set): a value merely added
 		// behind one an outer handler left there is not the one clients read
@@ -501,6 +525,30 @@ func runC20(c *Ctx) {
 		for _, r := range realReturns(f) {
 			c.obI("R20.3", r, "common-defaults-on-every-path", !pathExists(f, nil, r, nil, isOneOf(both...)), "every exit of the flavour's defaulting lies behind the common defaults having been applied and copied back", "the defaulting can return without the common defaults (path, spec URL, title …)")
 		}
+	}
+	// copying the common options back into a flavour's options touches the common fields only: the decoder writes INTO
+	// the target (gob leaves the fields it does not transmit alone), the target is never replaced by a fresh value — the
+	// flavour's own settings (OAuth callback URL, asset URLs, templates) survive the defaulting
+	{
+		nDec := 0
+		for _, fn := range p.LibFuncs("rt/middleware") {
+			if fnName(fn) != "rt/middleware.fromCommonToAnyOptions" || len(fn.Blocks) == 0 || len(fn.Params) != 2 {
+				continue
+			}
+			target := fn.Params[1]
+			for _, ci := range callsIn(fn, "(*encoding/gob.Decoder).Decode") {
+				_, a := callArgs(ci.Common())
+				okT, bad := allOrigins(unboxed(a[0]), oIsValue(target))
+				nDec++
+				c.obI("R20.3", ci, "common-options-decoded-into-target", okT, "the common UI options are decoded into the flavour's own options value, in place", "decoded into "+describeOrigin(bad)+": the flavour-specific fields of the target are lost")
+			}
+			for _, in := range instrs(fn) {
+				if st, ok := in.(*ssa.Store); ok && st.Addr == ssa.Value(target) {
+					c.obD("R20.3", st, "target-options-not-replaced", false, "the flavour's options value is never overwritten as a whole when the common options are copied in", "*target is assigned a whole new value: every flavour-specific setting (OAuth callback URL, asset URLs …) is wiped")
+				}
+			}
+		}
+		c.obRF("R20.3", p.Fn("(*rt/middleware.uiOptions).EnsureDefaults"), "options-copied-by-decoding", nDec >= 1, "the common options are copied into a flavour's options by decoding", "")
 	}
 	c.obRF("R20.3", p.Fn("(*rt/middleware.uiOptions).EnsureDefaults"), "SpecURL-writers", nSU >= 2, "writers of SpecURL found (option setter and default)", fmt.Sprintf("%d", nSU))
 	// the UI base path is only ever set through WithUIBasePath (which makes it absolute) or defaulted to "/": the
